@@ -24,3 +24,8 @@ type Result struct {
 func Run(now time.Time, getter verify.HTTPSGetter, files map[string][]byte, args ...string) Result {
 	return Result{Err: errors.New("in-process CLI unavailable (noexport build)")}
 }
+
+// RunOS is unavailable in this build.
+func RunOS(now time.Time, getter verify.HTTPSGetter, args ...string) Result {
+	return Result{Err: errors.New("in-process CLI unavailable (noexport build)")}
+}
